@@ -24,7 +24,7 @@ CODE = 0x10000
 L1_TABLE = 0x4000
 L2_TABLE = 0x3000
 # physical ranges that User-mode code has no write permission for, per protection setting (programmed below)
-USER_PROTECTED = {'off': [], 'mpu': [(0x1000, 0x3000), (0x11800, 0x12000)], 'mmu': [(0x1000, 0x8000)]}
+USER_PROTECTED = {'off': [], 'mpu': [(0x1000, 0x3000), (0x11800, 0x12000)], 'mmu': [(0x1000, 0x8000)], 'mmu-ld': None}
 
 ADDRISH = [0x0, 0x4, 0x100, 0x104, 0xFFC, 0x1000, 0x1004, 0x1FFC, 0x2000, 0x2ffc, 0x7FF8, 0x7FFC, 0x7FFE, 0x8000,
            0x10800, 0x11000, 0x11004, 0x11FF8, 0x11FFC, 0x12000, 0xFFFFF000, 0xFFFFF800, 0xFFFFFFE0, 0xFFFFFFF0,
@@ -54,6 +54,8 @@ class Ctx:
             self._program_mpu()
         elif prot == 'mmu':
             self._program_mmu()
+        elif prot == 'mmu-ld':
+            self._program_mmu_ld()
         self.base = observe.snapshot(cpu)
 
     def _program_mpu(self):
@@ -96,6 +98,63 @@ class Ctx:
         r.dacr.value = 0b00_11_01        # domain0 client, domain1 manager, domain2 none
         r.sctlr.tre = 0
         r.sctlr.afe = 0
+        r.sctlr.m = 1
+
+    def _program_mmu_ld(self):
+        """long-descriptor stage-1 tables (TTBCR.EAE = 1, T0SZ = T1SZ = 0): three levels for the first 2MB, 2MB blocks,
+        and the top page of the address space"""
+        cpu = self.cpu
+        r = cpu.registers
+        assert self.cfg['have_lpae']
+        L1, L2A, L2B, L3A, L3B = 0x4000, 0x5000, 0x6000, 0x3000, 0x7000
+
+        def w64(a, v):
+            M.poke(cpu, a, v.to_bytes(8, 'little'))
+        for t in (L1, L2A, L2B, L3A, L3B):
+            M.poke(cpu, t, bytes(0x1000))
+        AF, TABLE, PAGE, BLOCK = 1 << 10, 0b11, 0b11, 0b01
+
+        def attrs(ap, idx=3, af=1, xn=0):
+            return (xn << 54) | (af << 10) | (ap << 6) | (idx << 2)
+        w64(L1 + 0, L2A | TABLE)
+        w64(L1 + 24, L2B | TABLE | (1 << 62))                    # APTable<1>: read-only below this table
+        w64(L2A + 0, L3A | TABLE)                                # VA 0x000000-0x1FFFFF by pages
+        w64(L2A + 8, 0x0 | attrs(0b01) | BLOCK)                  # VA 0x200000: 2MB block -> PA 0, RW at any level
+        w64(L2A + 16, 0x0 | attrs(0b01, af=0) | BLOCK)           # VA 0x400000: access flag clear
+        w64(L2A + 24, 0x0 | attrs(0b00) | BLOCK)                 # VA 0x600000: privileged only
+        w64(L2A + 32, 0x0 | attrs(0b11, idx=1) | BLOCK)          # VA 0x800000: read-only, Device
+        w64(L2B + 8 * 511, L3B | TABLE)
+        w64(L3B + 8 * 511, 0xFFFFF000 | attrs(0b01) | PAGE)      # written read-only through APTable
+        for pg in range(512):
+            pa = pg << 12
+            if pg == 1:
+                d = pa | attrs(0b00) | PAGE                      # 0x1000: privileged only
+            elif pg == 2:
+                d = pa | attrs(0b11) | PAGE                      # 0x2000: read-only
+            elif 3 <= pg <= 7:
+                d = pa | attrs(0b10) | PAGE                      # tables: privileged read-only
+            elif pg == 8:
+                d = pa | attrs(0b01, idx=0) | PAGE               # 0x8000: Strongly-ordered (unmapped PA)
+            elif pg in (0x10, 0x11):
+                d = pa | attrs(0b01) | PAGE                      # code
+            elif pg == 0x12:
+                d = 0x11000 | attrs(0b01, af=0) | PAGE
+            elif pg < 0x20:
+                d = pa | attrs(0b01) | PAGE
+            elif pg == 0x100:
+                d = 0x1000 | attrs(0b10) | PAGE                  # VA 0x100000 -> PA 0x1000 privileged read-only
+            elif pg == 0x101:
+                d = 0x0 | attrs(0b01) | 0b01                     # reserved level-3 encoding
+            else:
+                d = 0
+            w64(L3A + 8 * pg, d)
+        r.ttbr0 = r.ttbr0_64 = L1
+        r.ttbr1 = r.ttbr1_64 = 0
+        r.ttbcr.value = 1 << 31
+        r.mair0 = 0xFF440400
+        r.mair1 = 0xFF440400
+        r.sctlr.afe = 1
+        r.sctlr.tre = 0
         r.sctlr.m = 1
 
     def fresh(self):
